@@ -105,3 +105,9 @@ Print Assumptions C12_before_fixes_tombstone_dropped.
 Theorem C12_before_fixes_reopen : ~ CompactionBeforeProofs.C12_reopen_statement.
 Proof. exact CompactionBeforeProofs.reopen_refuted. Qed.
 Print Assumptions C12_before_fixes_reopen.
+
+(* --- known finding KF-C12-7: retiring the flushed log files at an arbitrary point (not right after
+       a full flush) can lose the newer version: recovered tables are flushed a second time --- *)
+Theorem C12_retire_anywhere_refuted : ~ C12_retire_anywhere_statement.
+Proof. exact retire_anywhere_refuted. Qed.
+Print Assumptions C12_retire_anywhere_refuted.
